@@ -14,18 +14,20 @@ FIELDS = {  # name: (cfg, kind, N)
     'mnt6_753_fq': (4, 1, 12), 'f13': (5, 1, 1), 'm61': (6, 1, 1), 'goldilocks': (7, 1, 1), 'jubjub_fq': (8, 1, 4),
     'bls12_381_fq2': (0, 2, 6), 'f13_2': (5, 2, 1), 'mnt6_753_fq3': (4, 3, 12), 'bls12_381_fq6': (0, 6, 6),
     'bls12_381_fq12': (0, 12, 6)}
-SW = {'bls12_381_g1': (0, 1, 6, 'bls12_381_fr'), 'bls12_381_g2': (0, 2, 6, 'bls12_381_fr'), 'secp256k1': (2, 1, 4, 'secp256k1_fr'),
-      'toy_sw13': (5, 1, 1, None)}
-TE = {'jubjub': (8, 1, 4, None), 'toy_te13': (5, 1, 1, None)}
+# (cfg, kind, N, scalar field, var): var = index of the curve among those over the same field (a[0][3], harness only)
+SW = {'bls12_381_g1': (0, 1, 6, 'bls12_381_fr', 0), 'bls12_381_g2': (0, 2, 6, 'bls12_381_fr', 0),
+      'secp256k1': (2, 1, 4, 'secp256k1_fr', 0), 'toy_sw13': (5, 1, 1, None, 0), 'toy_sw13b': (5, 1, 1, None, 1),
+      'toy_sw13c': (5, 1, 1, None, 2)}
+TE = {'jubjub': (8, 1, 4, None, 0), 'toy_te13': (5, 1, 1, None, 0)}
 out = {'fields': {}, 'sw': {}, 'te': {}}
 for n, (c, k, N) in FIELDS.items():
     out['fields'][n] = {'cfg': c, 'kind': k, 'N': N, 'params': ask('3:fld_params %x,%x,%x' % (c, k, N))[0]}
-for n, (c, k, N, fr) in SW.items():
-    r = ask('7:sw_params %x,%x,%x' % (c, k, N))
-    out['sw'][n] = {'cfg': c, 'kind': k, 'N': N, 'params': r[0], 'a': r[1], 'b': r[2], 'G': r[3], 'fr': fr}
-for n, (c, k, N, fr) in TE.items():
-    r = ask('9:te_params %x,%x,%x' % (c, k, N))
-    out['te'][n] = {'cfg': c, 'kind': k, 'N': N, 'params': r[0], 'a': r[1], 'd': r[2], 'G': r[3]}
+for n, (c, k, N, fr, var) in SW.items():
+    r = ask('7:sw_params %x,%x,%x,%x' % (c, k, N, var))
+    out['sw'][n] = {'cfg': c, 'kind': k, 'N': N, 'var': var, 'params': r[0], 'a': r[1], 'b': r[2], 'G': r[3], 'fr': fr}
+for n, (c, k, N, fr, var) in TE.items():
+    r = ask('9:te_params %x,%x,%x,%x' % (c, k, N, var))
+    out['te'][n] = {'cfg': c, 'kind': k, 'N': N, 'var': var, 'params': r[0], 'a': r[1], 'd': r[2], 'G': r[3]}
 r = ask('d:gt_params 0,c,6')
 out['gt'] = {'bls12_381': {'params': r[0], 'g': r[1]}}
 json.dump(out, open('/verif/props/C19/params.json', 'w'), indent=1, sort_keys=True)
